@@ -75,6 +75,13 @@ def gen(rng, tier):
             ops.append(['connect', p, ns])
         else:
             ops.append(['mutate_get', p, ns, cnt])
+        if rng.random() < 0.12:
+            # the application is still busy with clients whose transport has
+            # gone (a background handler finishing late): it writes to and
+            # reads sessions under session ids that have ended
+            ops.append([rng.choice(['late_save', 'late_block']),
+                        rng.randrange(8), {'late': cnt}])
+            ops.append(['late_get', rng.randrange(8)])
     return {'cfg': cfg, 'ops': ops}
 
 
@@ -126,6 +133,8 @@ def _run(case, cfg, w):
         return 'new_sid_not_empty' if fresh else 'other'
 
     saved_ns = set()    # (p, ns) that ever had a session saved
+    gone = []           # (sid, ns) whose transport has gone
+    late_vals = []      # (sid, ns, value) written after the sid had ended
     nontrivial = False
 
     def target(ns):
@@ -346,6 +355,46 @@ def _run(case, cfg, w):
             for ns, sid in sc.drop_transport(p):
                 shadow.pop(tkey(sid, ns), None)
                 model.pop((sid, ns), None)
+                gone.append((sid, ns))
+        elif k in ('late_save', 'late_block') and gone:
+            sid, ns = gone[op[1] % len(gone)]
+            val = dict(op[2], owner=sid)
+            if k == 'late_save':
+                h = call_api('save_session', sid, ns, dict(val))
+            else:
+                t = target(ns)
+                if w.mode == 'async':
+                    async def blk():
+                        cm = t.session(sid, namespace=ns) if t is srv \
+                            else t.session(sid)
+                        async with cm as sess:
+                            sess.update(val)
+                else:
+                    def blk():
+                        cm = t.session(sid, namespace=ns) if t is srv \
+                            else t.session(sid)
+                        with cm as sess:
+                            sess.update(val)
+                h = w.call(blk, _label=('session-late',))
+            w.settle()
+            w.rec.count('fault.late_session_write')
+            # (it may fail - the client is gone - or be accepted)
+            late_vals.append((sid, ns, val))
+        elif k == 'late_get' and gone:
+            sid, ns = gone[op[1] % len(gone)]
+            h = call_api('get_session', sid, ns)
+            w.settle()
+            if h.exc is None and h.result:
+                other = [s2 for s2, n2, val in late_vals
+                         if s2 != sid and isinstance(h.result, dict) and
+                         h.result.get('owner') == s2]
+                other += [s2 for (s2, n2), val in model.items()
+                          if s2 != sid and val and typed_eq(h.result, val)]
+                v.add('session_mismatch', '%s: get_session(%s,%s) of a '
+                      'client that is gone returned %s%s'
+                      % (where, sid, ns, trepr(h.result),
+                         ', written for %s' % other[0] if other else ''),
+                      'another_client' if other else 'ended_session_readable')
     for e in w.rec.errors:
         v.add('error_logged', '%s %s' % (e['msg'], e.get('exc')),
               (e.get('exc') or e['msg']).split(':')[0][:40])
